@@ -1242,6 +1242,9 @@ class FortranFile:
 
     def check_file(self, obj_tree, max_line_length=-1, max_comment_line_length=-1):
         diagnostics = []
+        # The line-length warnings are made anew by every call, they must not pile
+        # up next to the errors found while parsing
+        n_parse_errors = len(self.ast.parse_errors)
         if (max_line_length > 0) or (max_comment_line_length > 0):
             msg_line = f'Line length exceeds "max_line_length" ({max_line_length})'
             msg_comment = (
@@ -1269,6 +1272,8 @@ class FortranFile:
                             len(line),
                         )
         errors, diags_ast = self.ast.check_file(obj_tree)
+        diags_ast = list(diags_ast)
+        del self.ast.parse_errors[n_parse_errors:]
         # Columns of parse errors are taken from the joined statement, keep them
         # inside the physical line the diagnostic is reported on
         for diag in diags_ast:
